@@ -173,3 +173,24 @@ impl<T: FloatT> KktSnapshot<T> {
         }
     }
 }
+
+// H2c : cone-level access.  MatrixShape is needed to call the (public) SymmetricCone methods;
+// NonsymView exposes the crate-private nonsymmetric-cone calculus and its stored results.
+pub use crate::algebra::{MatrixShape, MatrixTriangle};
+
+pub trait NonsymView<T> {
+    fn v_is_primal_feasible(&self, s: &[T]) -> bool;
+    fn v_is_dual_feasible(&self, z: &[T]) -> bool;
+    fn v_barrier_primal(&mut self, s: &[T]) -> T;
+    fn v_barrier_dual(&mut self, z: &[T]) -> T;
+    /// None where the cone does not implement a third-order correction
+    fn v_higher_correction(&mut self, ds: &[T], v: &[T]) -> Option<Vec<T>>;
+    fn v_update_dual_grad_H(&mut self, z: &[T]);
+    fn v_gradient_primal(&self, s: &[T]) -> Vec<T>;
+    /// stored gradient of the dual barrier
+    fn v_grad(&self) -> Vec<T>;
+    /// stored Hessian of the dual barrier, dense row-major
+    fn v_H_dual(&self) -> Vec<Vec<T>>;
+    /// stored scaling matrix Hs, dense row-major
+    fn v_Hs(&self) -> Vec<Vec<T>>;
+}
